@@ -2,6 +2,7 @@ import Driver.VMapDrv
 import Driver.TextTableDrv
 import Driver.KeywordsDrv
 import Driver.SpecifiersDrv
+import Driver.ArithDrv
 /-! `psymodel <component>`: reads one case per line on stdin, answers one line per case. -/
 
 partial def loop (h : IO.FS.Stream) (out : IO.FS.Stream) (f : String → String) : IO Unit := do
@@ -18,4 +19,5 @@ def main (args : List String) : IO UInt32 := do
   | ["textable"] => loop stdin stdout Driver.TextTableDrv.handle; return 0
   | ["keywords"] => loop stdin stdout Driver.KeywordsDrv.handle; return 0
   | ["specifiers"] => loop stdin stdout Driver.SpecifiersDrv.handle; return 0
+  | ["arith"] => loop stdin stdout Driver.ArithDrv.handle; return 0
   | _ => IO.eprintln "usage: psymodel <component>"; return 2
